@@ -147,6 +147,7 @@ type Agg struct {
 	Inconclusive []issue
 	Extra        map[string]any
 	Crashes      int
+	SlowAlone    int // cases that stalled in a batch (machine load) and completed when run alone
 }
 
 func (a *Agg) addChunk(c *chunkSummary) {
@@ -462,8 +463,13 @@ wait:
 			fr := TopRepoFrame(stackOfRunning(dump2))
 			agg.addIssue(issue{Kind: "violation", Idx: cur, Key: "hang:" + fr, Crashed: true,
 				Msg: fmt.Sprintf("case made no progress for %v in a batch and again for %v when run alone; goroutine dump:\n%s", stall, confirm, firstLines(dump2, 60))})
+		} else if ingestConfirm(agg, out+"-confirm.jsonl", cur) {
+			// slow under load, not stuck: the run of the case alone completed and its outcome is the case's outcome
+			agg.mu.Lock()
+			agg.SlowAlone++
+			agg.mu.Unlock()
 		} else {
-			agg.addIssue(issue{Kind: "inconclusive", Idx: cur, Msg: fmt.Sprintf("stalled %v in a batch but finished when run alone", stall)})
+			agg.addIssue(issue{Kind: "inconclusive", Idx: cur, Msg: fmt.Sprintf("stalled %v in a batch and its run alone ended without a result", stall)})
 		}
 	} else if !ck.CrashNotViolation {
 		key := "crash:" + TopRepoFrame(logTxt)
@@ -477,6 +483,40 @@ wait:
 	}
 	push(batch{upto, cur})
 	push(batch{cur + 1, b.to})
+}
+
+// ingestConfirm takes over what the stage-2 child (one case alone) reported. True when it completed the case.
+func ingestConfirm(agg *Agg, path string, idx int) bool {
+	f, err := os.Open(path)
+	if err != nil {
+		return false
+	}
+	defer f.Close()
+	sc := bufio.NewScanner(f)
+	sc.Buffer(make([]byte, 1<<20), 1<<28)
+	done := false
+	var issues []issue
+	for sc.Scan() {
+		line := sc.Bytes()
+		if bytes.Contains(line, []byte(`"kind":"chunk"`)) {
+			var c chunkSummary
+			if json.Unmarshal(line, &c) == nil && c.Upto > idx {
+				agg.addChunk(&c)
+				done = true
+			}
+		} else {
+			var is issue
+			if json.Unmarshal(line, &is) == nil {
+				issues = append(issues, is)
+			}
+		}
+	}
+	if done {
+		for _, is := range issues {
+			agg.addIssue(is)
+		}
+	}
+	return done
 }
 
 func exitDesc(err error) string {
